@@ -5,6 +5,7 @@ import (
 	"encoding/binary"
 	"encoding/json"
 	"fmt"
+	"math/big"
 	"sort"
 	"strings"
 	"time"
@@ -55,6 +56,7 @@ type c16Extra struct {
 	Variant    string `json:"variant"`
 	C11Upgrade bool   `json:"c11_upgrade,omitempty"` // the trace belongs to C11's upgrade sub-profile
 	C17Upgrade bool   `json:"c17_upgrade,omitempty"` // ... to C17's upgrade sub-profile
+	C05Upgrade bool   `json:"c05_upgrade,omitempty"` // ... to C05's upgrade sub-profile
 }
 
 const uc4ePerToken = 1_000_000
@@ -75,8 +77,9 @@ func c16Trace(seed uint64) *kernel.Trace {
 	spec := baseSpec(r.Fork(1), r.Range(3, 5), nil, 16)
 	spec.NoICA = true
 	spec.GenesisTime = spec.GenesisTime.Truncate(time.Second)
+	vdenom := BondDenom
 	vg := vtypes.GenesisState{Params: vtypes.Params{Denom: BondDenom}, VestingAccountTraces: []vtypes.VestingAccountTrace{}}
-	variant := []string{"all-present", "all-present", "no-owner", "no-validators-pool", "not-enough-locked", "exactly-enough", "no-validators-type", "all-present-with-history"}[r.Intn(8)]
+	variant := []string{"all-present", "all-present", "no-owner", "no-validators-pool", "not-enough-locked", "exactly-enough", "no-validators-type", "all-present-with-history", "withdrawn-below-threshold"}[r.Intn(9)]
 	// vesting types
 	for i := 0; i < r.Range(1, 3); i++ {
 		lp, lu := genPeriodUnits(r)
@@ -139,6 +142,19 @@ func c16Trace(seed uint64) *kernel.Trace {
 			// keep the locked remainder on the intended side of the threshold
 			locked := p.GetCurrentlyLocked()
 			switch variant {
+			case "withdrawn-below-threshold":
+				// more than 72M were locked initially and never sent, but the owner has withdrawn so much (the lock ended)
+				// that less than 72M are left: the split must not run
+				total = total.Sub(locked)
+				p.InitiallyLocked = c16SplitTotal.Add(sdk.NewIntFromBigInt(r.BigLogUniform(14)))
+				p.Sent = sdk.NewIntFromBigInt(r.BigBelow(big.NewInt(1_000_000_000)))
+				rest := p.InitiallyLocked.Sub(p.Sent)
+				leave := sdk.NewIntFromBigInt(r.BigBelow(c16SplitTotal.BigInt())) // < 72M stay locked
+				if leave.GT(rest) {
+					leave = rest
+				}
+				p.Withdrawn = rest.Sub(leave)
+				total = total.Add(p.GetCurrentlyLocked())
 			case "not-enough-locked":
 				// fine: locked <= init < total
 			case "exactly-enough":
@@ -170,8 +186,13 @@ func c16Trace(seed uint64) *kernel.Trace {
 			vg.AccountVestingPools = append(vg.AccountVestingPools, avp)
 		}
 	}
+	if r.Intn(4) == 0 {
+		// the pools are counted in a denomination of their own (the legacy parameter, not the staking denomination)
+		vdenom = "uvest"
+		vg.Params.Denom = vdenom
+	}
 	if total.IsPositive() {
-		spec.Balances = append(spec.Balances, kernel.BalSpec{Module: vtypes.ModuleName, Coins: sdk.NewCoin(BondDenom, total).String()})
+		spec.Balances = append(spec.Balances, kernel.BalSpec{Module: vtypes.ModuleName, Coins: sdk.NewCoin(vdenom, total).String()})
 	}
 	// the four accounts whose schedule is shifted (present, absent, or a plain base account), plus bystanders
 	hard := []string{v120.Account1, v120.Account2, v120.Account3, v120.Account4}
@@ -357,6 +378,7 @@ func toLegacyLayout(c *kernel.Chain) (legacyMinter mintertypes.LegacyParams, leg
 }
 
 type c16Snap struct {
+	denom  string
 	pools  map[string]map[string]poolRec
 	module sdk.Int
 	accs   map[string][]byte
@@ -399,7 +421,7 @@ func c16Replay(tr *kernel.Trace) *Outcome {
 		switch r.BlockIdx {
 		case 0:
 			s := takeVSnap(r.Chain, false)
-			s0 = &c16Snap{pools: s.pools, module: s.module, accs: s.accs, bal: s.bal, traceN: s.traceN, vtypes: map[string]bool{}}
+			s0 = &c16Snap{denom: s.denom, pools: s.pools, module: s.module, accs: s.accs, bal: s.bal, traceN: s.traceN, vtypes: map[string]bool{}}
 			s0.traces = r.Chain.App.CfevestingKeeper.GetAllVestingAccountTrace(r.Chain.Ctx())
 			for _, vt := range r.Chain.App.CfevestingKeeper.GetAllVestingTypes(r.Chain.Ctx()).VestingTypes {
 				s0.vtypes[vt.Name] = true
@@ -482,6 +504,14 @@ func c16Check(r *kernel.Run, s0 *c16Snap, legacyMinter mintertypes.LegacyParams,
 	// (b) solvency
 	if !s1.module.Equal(s1.lockedSum()) {
 		violate("solvency", "module-balance-vs-pools", "after the upgrade the vesting module account holds %s but pools lock %s", s1.module, s1.lockedSum())
+	}
+	for _, ow := range sortedOwners(s1.pools) {
+		for _, name := range sortedPools(s1.pools[ow]) {
+			p := s1.pools[ow][name]
+			if p.Wd.IsNegative() || p.Sent.IsNegative() || p.Wd.Add(p.Sent).GT(p.Init) {
+				violate("solvency", "pool-bounds", "after the upgrade pool %s/%s has initially locked %s, sent %s, withdrawn %s", ow, poolBaseName(name), p.Init, p.Sent, p.Wd)
+			}
+		}
 	}
 	// (a) total locked and per-pool histories
 	lock0, lock1 := sdk.ZeroInt(), s1.lockedSum()
@@ -624,8 +654,8 @@ func c16Check(r *kernel.Run, s0 *c16Snap, legacyMinter mintertypes.LegacyParams,
 	if err := dp.Validate(); err != nil {
 		violate("params", "migrated-distributor-params-invalid", "migrated distributor parameters fail validation: %v", err)
 	}
-	if vpar.Denom != BondDenom {
-		violate("params", "vesting-denom-changed", "vesting denom is %q after the upgrade", vpar.Denom)
+	if vpar.Denom != s0.denom {
+		violate("params", "vesting-denom-changed", "vesting denom was %q before and is %q after the upgrade", s0.denom, vpar.Denom)
 	}
 	if m1, err := MintModelFrom(mp); err == nil {
 		m0 := legacyMintModel(legacyMinter)
